@@ -175,7 +175,7 @@ def digest (s : VM) : Json :=
     Json.arr #[.str e.1, jnat (ord e.2.1), pos]
   Json.mkObj [
     ("res", "ok"),
-    ("out", Json.arr (r.outgoing.map fun e => Json.arr #[.str e.name, kvsToJson e.args, jopt e.actionUid]).toArray),
+    ("out", Json.arr (r.outgoing.map fun e => Json.arr #[.str e.name, kvsToJson (sortBy (fun a b => a.1 < b.1) e.args), jopt e.actionUid]).toArray),
     ("insts", Json.arr insts.toArray),
     ("index", Json.arr index.toArray),
     ("actions", Json.arr (r.actions.map fun (u, a) => Json.arr #[.str u, .str a.name, .str (astr a.status), jint a.scopeCount]).toArray),
@@ -184,6 +184,7 @@ def digest (s : VM) : Json :=
     ("choices_left", jnat r.choices.length),
     ("guards_ok", .bool s.ixs.ok),
     ("nops", jnat s.ixs.rlog.length),
+    ("caught", Json.arr (r.caught.map Json.str).toArray),
     ("gctx", kvsToJson r.gctx)]
 
 def errToJson : VMErr → Json
@@ -191,19 +192,75 @@ def errToJson : VMErr → Json
   | .unsupported why => Json.mkObj [("res", "unsupported"), ("why", .str why)]
   | .py cls msg => Json.mkObj [("res", "raise"), ("cls", .str cls), ("msg", .str msg)]
 
+/-! ### uid correspondence
+    The implementation's uids and the model's come from different counters. Both sides number uids by order of
+    first appearance in the digests produced so far (`harness/impl/corevm.py::canon_uids` walks the same fields in
+    the same order); an external event refers to the n-th uid as `@@n@@`, which the driver replaces by the model's
+    n-th uid before the event is processed. -/
+
+/-- all substrings of the form `u<digits>z`, left to right -/
+def scanUids (s : String) : List String :=
+  let cs := s.toList
+  let rec go (fuel : Nat) (cs : List Char) (acc : List String) : List String :=
+    match fuel, cs with
+    | 0, _ => acc
+    | _, [] => acc
+    | fuel + 1, 'u' :: rest =>
+      let ds := rest.takeWhile Char.isDigit
+      let after := rest.dropWhile Char.isDigit
+      match ds, after with
+      | _ :: _, 'z' :: after' => go fuel after' (acc ++ [String.ofList ('u' :: ds ++ ['z'])])
+      | _, _ => go fuel rest acc
+    | fuel + 1, _ :: rest => go fuel rest acc
+  go (cs.length + 1) cs []
+
+partial def walkUids (j : Json) (acc : List String) : List String :=
+  match j with
+  | .str s => (scanUids s).foldl (fun a u => if a.contains u then a else a ++ [u]) acc
+  | .arr a => a.foldl (fun acc x => walkUids x acc) acc
+  | .obj o => o.foldl (fun acc k v => walkUids v (walkUids (.str k) acc)) acc
+  | _ => acc
+
+/-- replace every `@@n@@` by the n-th uid of the table -/
+def substCanon (table : List String) (s : String) : String :=
+  let parts := s.splitOn "@@"
+  -- parts alternate: text, number, text, number, … when the string is well formed
+  let rec go : List String → Bool → String
+    | [], _ => ""
+    | p :: rest, isNum =>
+      if isNum then
+        match p.toNat?, rest with
+        | some n, _ :: _ => (table[n]?.getD ("@@" ++ p ++ "@@")) ++ go rest false
+        | _, _ => "@@" ++ p ++ go rest true
+      else p ++ go rest true
+  go parts false
+
+partial def substVal (table : List String) : Val → Val
+  | .str s => .str (substCanon table s)
+  | .list xs => .list (xs.map (substVal table))
+  | .set xs => .set (xs.map (substVal table))
+  | .dict kvs => .dict (kvs.map fun (k, v) => (k, substVal table v))
+  | v => v
+
+def substEv (table : List String) (e : Match.Ev) : Match.Ev :=
+  { e with args := e.args.map (fun (k, v) => (k, substVal table v)), actionUid := e.actionUid.map (substCanon table) }
+
 /-- `{"prog":…, "events":[{"ev":…, "choices":[…], "clock":n}, …], "fuel":n}` → one digest per event, stopping at the
     first event on which the model raises / runs out of fuel / cannot follow. -/
 def runProgram (j : Json) : Except String Json := do
   let prog ← progOfJson (← j.getObjVal? "prog")
   let fuel := match j.getObjVal? "fuel" with | .ok v => (v.getNat?.toOption).getD 400 | _ => 400
   let evs ← arrOf j "events"
-  let mut vm : VM := { r := { prog := prog } }
+  -- run-time uids must not collide with the uids embedded in the program (fork uids, labels), which come from the
+  -- implementation's counter at parse time
+  let mut vm : VM := { r := { prog := prog, nextUid := 1000000 } }
   let mut outs : Array Json := #[]
   match initializeState vm with
   | .ok _ s => vm := s
   | .error e _ => return Json.arr #[errToJson e]
+  let mut table : List String := []
   for e in evs do
-    let ev ← evOfJson (← e.getObjVal? "ev")
+    let ev := substEv table (← evOfJson (← e.getObjVal? "ev"))
     let choices ← match e.getObjVal? "choices" with
       | .ok (.arr a) => a.toList.mapM (·.getNat?)
       | _ => pure []
@@ -212,7 +269,10 @@ def runProgram (j : Json) : Except String Json := do
     match runToCompletion fuel ev vm with
     | .ok _ s =>
       vm := s
-      outs := outs.push (digest vm)
+      let d := digest vm
+      for k in ["out", "insts", "index", "actions", "gctx"] do
+        table := walkUids ((d.getObjVal? k).toOption.getD .null) table
+      outs := outs.push d
     | .error err s =>
       let d := errToJson err
       outs := outs.push (d.setObjVal! "partial" (digest s))
